@@ -222,6 +222,24 @@ theorem add_records_lock (s : St) (amount unlock now : Int) (hu : unlock ≠ 0) 
     | cons x xs ih => simp [lockedAt, ih]; omega
   simp [add, hu, happ, lockedAt, hn]
 
+/-- the liquidation flag is the only way past an unexpired lock: with everything else equal, a deduction the owner is refused
+succeeds when it is flagged as a liquidation — and drops every lock-up entry. So every caller that sets the flag must be a
+liquidation (WITNESS of the shape of seeded change C12-3, where an owner's close of an unhealthy position set it). -/
+theorem liquidation_flag_witness :
+    (deduct (add {} 100 3600) 100 1800 false).toOption = none ∧
+    (deduct (add {} 100 3600) 100 1800 true).toOption = some { committed := 0, locks := [] } := by decide
+
+/-- what the history check's clause `C12.lock_kept` evaluates: after a non-liquidation deduction every lock-up entry that has
+not expired is still recorded -/
+theorem unexpired_locks_kept {s s' : St} {amount now : Int} (h : deduct s amount now false = .ok s') (l : Lock)
+    (hl : l ∈ s.locks) (hu : l.unlock > now) : l ∈ s'.locks := by
+  unfold deduct at h
+  simp only [Bool.false_eq_true, if_false] at h
+  split at h; · simp at h
+  split at h; · simp at h
+  simp only [Except.ok.injEq] at h; subst h
+  exact List.mem_filter.mpr ⟨hl, by simpa using hu⟩
+
 /-- non-vacuity: two commits locked until the same time, then an early withdrawal attempt of the second -/
 example : (deduct (add (add {} 100 3600) 100 3600) 100 1800 false).toOption = none ∧
           (deduct (add (add {} 100 3600) 100 3600) 100 3601 false).toOption.map (·.committed) = some 100 := by decide
